@@ -229,7 +229,7 @@ def gen_spec(k):
             vals = [R.randrange(-1000, 1000) for _ in range(cnt)]
         s["props"].append({"name": nm, "dtype": dt, "k": kk, "vals": vals})
     if hostile == "prop-reserved":
-        nm = R.choice(RESERVED)
+        nm = R.choice([r for r in RESERVED if r != "is_in_data"])   # a property named is_in_data cannot even be constructed
         s["props"].append({"name": nm, "dtype": "float64", "k": 0, "vals": [10.0 + i for i in range(n)]})
     elif hostile == "prop-str":
         s["props"].append({"name": "label", "dtype": "str", "k": 0, "vals": ["g%d" % i for i in range(n)]})
@@ -382,7 +382,8 @@ def compare(m0, m1, pre, rep):
     """original record m0 vs loaded record m1 -> failures with signatures"""
     n = len(m0["pid"])
     if m0["shape"] != m1["shape"]:
-        fail(pre + "shape", f"map shape {m0['shape']} became {m1['shape']}", rep)
+        cause = ":prop-reserved" if ("x" in m0["props"] or "y" in m0["props"]) else ""
+        fail(pre + "shape" + cause, f"map shape {m0['shape']} became {m1['shape']}", rep)
     if m0["ind"] != m1["ind"]:
         fail(pre + "is_in_data", "is_in_data differs after the round trip", rep)
     for c in "xy":
@@ -428,7 +429,8 @@ def compare(m0, m1, pre, rep):
     ids0, ids1 = sorted(m0["phases"], key=int), sorted(m1["phases"], key=int)
     if ids0 != ids1:
         used = set(str(i) for i in m0["pid"])
-        cause = "unused-dropped" if set(ids1) == set(ids0) & used and set(ids1) < set(ids0) else "other"
+        cause = ("prop-reserved" if "phase_id" in m0["props"] else
+                 "unused-dropped" if set(ids1) == set(ids0) & used and set(ids1) < set(ids0) else "other")
         fail(pre + f"phases:{cause}", f"phase ids {ids0} became {ids1}", rep)
     for i in ids0:
         if i not in m1["phases"]:
@@ -484,7 +486,9 @@ def classify_load_error(m0, e):
     if isinstance(e, ValueError) and "valid point" in str(e):
         for i, p in m0["phases"].items():
             if p["pg"] is not None and p["pg"] not in PGS and p["pg"] not in ("2", "20", "22", "42", "43", "m3m"):
-                return f"load:sym:{'sg=%d' % p['sg'] if p['sg'] is not None else 'pg=' + p['pg']}:raises"
+                if p["sg"] is not None:
+                    return "load:sym:sg=%d:raises" % p["sg"]
+                return "load:sym:pg=m:raises" if p["pg"] == "m" else "load:sym:pg-unlisted:raises"
     return f"load:exception:{name}"
 
 
@@ -512,6 +516,9 @@ def run_case(s, k):
             "save_exc": None, "load_exc": None, "corr": True}
     # the model has no string arrays and HDF5 path semantics of "/" in names
     if any(v["cls"] == "X" for v in m0["props"].values()) or any(k2 == "" or "/" in k2 for k2 in m0["props"]):
+        case["corr"] = False
+    # a float property overriding the phase_id dataset is cast by astype(int): float -> int casts are not modelled
+    if "phase_id" in m0["props"]:
         case["corr"] = False
     fn = os.path.join(TMP, f"c13_{os.getpid()}_{k}.{s['ext']}")
     try:
